@@ -231,6 +231,82 @@ ooq_add_instance!(ooq_add_k4_partial_run, 4, 0b1010, 0, false, 2);
 // @unwind 7
 ooq_add_instance!(ooq_add_k4_ff2_ooo, 4, 0b0011, 1, false, 2);
 
+// ---- thorough tier: complete enumeration of K = 3 (all 8 occupancy patterns x 3 offsets x DATA/FIN) ----
+macro_rules! ooq_add_enum_instance {
+    ($name:ident, $pat:expr) => {
+        #[kani::proof]
+        #[kani::unwind(7)]
+        fn $name() {
+            let off: u8 = kani::any();
+            kani::assume(off < 3);
+            let fin: bool = kani::any();
+            // offsets are dispatched concretely (shape rule): the solver sees three concrete-shape runs
+            let _c = match off {
+                0 => add_step::<3>($pat, 0, fin),
+                1 => add_step::<3>($pat, 1, fin),
+                _ => add_step::<3>($pat, 2, fin),
+            };
+            kani::cover!(true, "end of harness reachable (assumptions satisfiable, no unconditional failure)");
+        }
+    };
+}
+
+// @verif id=OOQ.enum.000 props=C01,C04,C03 tier=thorough timeout=1200
+// @functions OutOfOrderQueue::add_remove
+// @bounds K = 3, occupancy pattern 0b000; every relative offset 0..=2; DATA (2 symbolic bytes) or FIN
+// @asserts the full add_remove contract of OOQ.add.* (refusal / duplicate / store + consumed run) against the ghost, for this pattern
+// @unwind 7
+ooq_add_enum_instance!(ooq_add_enum_000, 0b000);
+
+// @verif id=OOQ.enum.001 props=C01,C04,C03 tier=thorough timeout=1200
+// @functions OutOfOrderQueue::add_remove
+// @bounds K = 3, occupancy pattern 0b001; every relative offset 0..=2; DATA (2 symbolic bytes) or FIN
+// @asserts the full add_remove contract of OOQ.add.* (refusal / duplicate / store + consumed run) against the ghost, for this pattern
+// @unwind 7
+ooq_add_enum_instance!(ooq_add_enum_001, 0b001);
+
+// @verif id=OOQ.enum.010 props=C01,C04,C03 tier=thorough timeout=1200
+// @functions OutOfOrderQueue::add_remove
+// @bounds K = 3, occupancy pattern 0b010; every relative offset 0..=2; DATA (2 symbolic bytes) or FIN
+// @asserts the full add_remove contract of OOQ.add.* (refusal / duplicate / store + consumed run) against the ghost, for this pattern
+// @unwind 7
+ooq_add_enum_instance!(ooq_add_enum_010, 0b010);
+
+// @verif id=OOQ.enum.011 props=C01,C04,C03 tier=thorough timeout=1200
+// @functions OutOfOrderQueue::add_remove
+// @bounds K = 3, occupancy pattern 0b011; every relative offset 0..=2; DATA (2 symbolic bytes) or FIN
+// @asserts the full add_remove contract of OOQ.add.* (refusal / duplicate / store + consumed run) against the ghost, for this pattern
+// @unwind 7
+ooq_add_enum_instance!(ooq_add_enum_011, 0b011);
+
+// @verif id=OOQ.enum.100 props=C01,C04,C03 tier=thorough timeout=1200
+// @functions OutOfOrderQueue::add_remove
+// @bounds K = 3, occupancy pattern 0b100; every relative offset 0..=2; DATA (2 symbolic bytes) or FIN
+// @asserts the full add_remove contract of OOQ.add.* (refusal / duplicate / store + consumed run) against the ghost, for this pattern
+// @unwind 7
+ooq_add_enum_instance!(ooq_add_enum_100, 0b100);
+
+// @verif id=OOQ.enum.101 props=C01,C04,C03 tier=thorough timeout=1200
+// @functions OutOfOrderQueue::add_remove
+// @bounds K = 3, occupancy pattern 0b101; every relative offset 0..=2; DATA (2 symbolic bytes) or FIN
+// @asserts the full add_remove contract of OOQ.add.* (refusal / duplicate / store + consumed run) against the ghost, for this pattern
+// @unwind 7
+ooq_add_enum_instance!(ooq_add_enum_101, 0b101);
+
+// @verif id=OOQ.enum.110 props=C01,C04,C03 tier=thorough timeout=1200
+// @functions OutOfOrderQueue::add_remove
+// @bounds K = 3, occupancy pattern 0b110; every relative offset 0..=2; DATA (2 symbolic bytes) or FIN
+// @asserts the full add_remove contract of OOQ.add.* (refusal / duplicate / store + consumed run) against the ghost, for this pattern
+// @unwind 7
+ooq_add_enum_instance!(ooq_add_enum_110, 0b110);
+
+// @verif id=OOQ.enum.111 props=C01,C04,C03 tier=thorough timeout=1200
+// @functions OutOfOrderQueue::add_remove
+// @bounds K = 3, occupancy pattern 0b111; every relative offset 0..=2; DATA (2 symbolic bytes) or FIN
+// @asserts the full add_remove contract of OOQ.add.* (refusal / duplicate / store + consumed run) against the ghost, for this pattern
+// @unwind 7
+ooq_add_enum_instance!(ooq_add_enum_111, 0b111);
+
 // @verif id=OOQ.add.range props=C01,C10 tier=quick
 // @functions OutOfOrderQueue::add_remove
 // @bounds K = 3, slot 0 filled (filled_front = 1); EVERY offset: usize with offset + filled_front >= K (bounded below usize::MAX - 3 so the sum cannot overflow; the dispatcher passes at most 65535), DATA or FIN
